@@ -1558,3 +1558,22 @@ Qed.
 Theorem container_hooks_registered : forall sigma encf c fs,
   dict_keys (encode_gen sigma encf (VDc KSer c fs)) = map PStr (spec_keys fs).
 Proof. intros. rewrite registered_in_container. apply to_dict_keys. Qed.
+
+(* ====================================================================================================== *)
+(* 9. facts added by the tie audit                                                                            *)
+
+(* from_dict works on a copy: the caller's dict is what it was (the DC_TYPE_KEY entries included) *)
+Theorem from_dict_leaves_argument : forall p, from_dict_arg_after FROM_DICT_POP DC_TYPE_KEY p = p.
+Proof. intros p. reflexivity. Qed.
+
+Theorem from_dict_none : forall decf k c fs, decode_gen decf (TDc k c fs) PNone = Ok VNone.
+Proof. intros decf k c fs. destruct k; reflexivity. Qed.
+
+Lemma api_table_ok :
+  transport_of_api "dict" = Some TrDict /\ transport_of_api "json" = Some TrJson /\ transport_of_api "yaml" = Some TrYaml.
+Proof. vm_compute. repeat split; reflexivity. Qed.
+
+(* the three metadata keys are written by field() and read back: the effective hooks are the declared ones *)
+Lemma hooks_wired_ok : forall m,
+  eff_incl HOOKS_WIRED m = m.(m_incl) /\ eff_enc HOOKS_WIRED m = m.(m_enc) /\ eff_dec HOOKS_WIRED m = m.(m_dec).
+Proof. intros m. repeat split; reflexivity. Qed.
